@@ -802,6 +802,70 @@ func c13R3(r *Report) {
 		}
 	})
 	r.Check(urlStores >= 3, "R3", "WriteTorrent/URL()-of-trackers-and-webseeds", wt.Pos(), "tracker and both kinds of web-seed URLs are collected", fmt.Sprintf("only %d URL() calls remain in WriteTorrent (trackers, GetRight and Hoffman seeds expected)", urlStores))
+	// each list is grown from itself: `hs = append(ul, …)` (a copy-paste slip) replaces one list by another
+	{
+		nApp := 0
+		allInstrs(wt, func(in ssa.Instruction) {
+			c, ok := in.(*ssa.Call)
+			if !ok {
+				return
+			}
+			bi, ok := c.Call.Value.(*ssa.Builtin)
+			if !ok || bi.Name() != "append" || len(c.Call.Args) == 0 {
+				return
+			}
+			// the loop-carried variable the result is assigned to
+			var into *ssa.Phi
+			var walk func(v ssa.Value, d int)
+			seen := map[ssa.Value]bool{}
+			walk = func(v ssa.Value, d int) {
+				if d > 4 || seen[v] || v.Referrers() == nil {
+					return
+				}
+				seen[v] = true
+				for _, ref := range *v.Referrers() {
+					if ph, isPhi := ref.(*ssa.Phi); isPhi {
+						if ph.Block().Dominates(c.Block()) && into == nil {
+							into = ph // a header phi: dominates the append it is fed by
+						} else {
+							walk(ph, d+1)
+						}
+					}
+				}
+			}
+			walk(c, 0)
+			if into == nil {
+				return
+			}
+			nApp++
+			// the slice that is extended: the same variable
+			from := c.Call.Args[0]
+			okSelf := false
+			var back func(v ssa.Value, d int)
+			seen2 := map[ssa.Value]bool{}
+			back = func(v ssa.Value, d int) {
+				if d > 4 || seen2[v] {
+					return
+				}
+				seen2[v] = true
+				if v == ssa.Value(into) {
+					okSelf = true
+					return
+				}
+				if ph, isPhi := v.(*ssa.Phi); isPhi && !ph.Block().Dominates(into.Block()) {
+					for _, e := range ph.Edges {
+						back(e, d+1)
+					}
+				}
+			}
+			back(from, 0)
+			key := fmt.Sprintf("WriteTorrent/append-extends-its-own-list(%s)", exprStr(c))
+			r.Check(okSelf, "R3", key, c.Pos(), "the list is extended from itself", "a URL list in WriteTorrent is assigned the extension of another list: the served-back .torrent loses entries of this list (and gains those of the other)")
+		})
+		if nApp == 0 {
+			r.Info("R3", "WriteTorrent/append-extends-its-own-list", wt.Pos(), "no loop-carried append found")
+		}
+	}
 	// announce-list omitted only when there is at most one tracker
 	if al := fields["AnnounceList"]; al != nil {
 		ph, isPhi := al.(*ssa.Phi)
